@@ -326,21 +326,31 @@ impl CodegenContext {
         let path: IdentifierPath = "segments".into();
 
         let segments = std::mem::replace(&mut self.segments, IndexMap::new());
+        // A program may have defined 'segments.<name>.start' itself: that is reported, and the segments are kept
+        let mut errors = Diagnostics::default();
         for (name, segment) in &segments {
             let path = path.join(name);
 
-            self.add_symbol(
+            if let Err(e) = self.add_symbol(
                 path.join("start"),
                 self.symbol(None, segment.range().start as i64, SymbolType::Constant),
-            )?;
+            ) {
+                errors.extend(e);
+            }
 
-            self.add_symbol(
+            if let Err(e) = self.add_symbol(
                 path.join("end"),
                 self.symbol(None, segment.range().end as i64, SymbolType::Constant),
-            )?;
+            ) {
+                errors.extend(e);
+            }
         }
         self.segments = segments;
-        Ok(())
+        if errors.is_empty() {
+            Ok(())
+        } else {
+            Err(errors)
+        }
     }
 
     fn after_pass(&mut self) -> CoreResult<()> {
@@ -429,11 +439,14 @@ impl CodegenContext {
                                 && existing.data != symbol.data
                                 && existing.read_only())
                         {
-                            let span = symbol.span.expect("no span provided");
-                            return Err(Diagnostic::error()
-                                .with_message(format!("cannot redefine symbol: {}", &path))
-                                .with_labels(vec![span.to_label()])
-                                .into());
+                            // A symbol the assembler defines itself ('segments.<name>.start') carries no span:
+                            // then the clash is reported where the program defined that name
+                            let mut diag = Diagnostic::error()
+                                .with_message(format!("cannot redefine symbol: {}", &path));
+                            if let Some(span) = symbol.span.or(existing.span) {
+                                diag = diag.with_labels(vec![span.to_label()]);
+                            }
+                            return Err(diag.into());
                         }
 
                         // If the symbol already existed but with a different value,
@@ -1666,7 +1679,9 @@ pub fn codegen(
                 errors = e.with_code_map(&ctx.tree.code_map);
             }
         }
-        ctx.after_pass().expect("Could not finalize pass");
+        if let Err(e) = ctx.after_pass() {
+            errors.extend(e);
+        }
 
         // Symbols that were added during this pass may shadow (or finally define) something that was
         // already used earlier in the same pass, so everything needs to be re-evaluated once more.
